@@ -20,3 +20,19 @@ Definition chk_gen_rls (has_bias : bool) (idim odim : nat) (alpha : Q) (k : nat)
 Definition chk_gen_lms (sc : list Q * Q) (has_bias : bool) (idim odim : nat) (k : nat)
            (calls : list (bool * list (qv * qv))) (os : list obs) : bool :=
   chk_calls gen_fwd (gen_lms_upd sc has_bias) k (lms_init idim odim) calls os.
+
+(* ---- intrinsic plasticity: the (a, b) update GENERATED from intrinsic_plasticity.py (coq/gen/Gen_ip.v) on the same recorded traces ---- *)
+From RV Require Import gen.Gen_ip.
+Fixpoint chk_gen_ip_trace (c : ipcfg (F:=Q)) (st : ipst (F:=Q)) (recs : list iprec) : bool :=
+  match recs with
+  | [] => true
+  | (learn, u, x, y, a, b) :: rest =>
+      let pre := res_pre c st u in
+      let '(a1, b1) := if learn then GenIP.ip (ia st) (ib st) (cmu c) (csigma c) (ceta c) (ctanh c) pre y else (ia st, ib st) in
+      vclose pre x && vclose a1 a && vclose b1 b &&
+      chk_gen_ip_trace c {| ia := a; ib := b; iout := y; iint := x |} rest
+  end.
+Definition chk_gen_ip (W Win : qm) (bias : qv) (lr : Q) (tanh_rule : bool) (mu sigma eta : Q)
+           (epochs warmup : nat) (seqs : list (list qv)) (recs : list iprec) (a_fin b_fin : qv) : bool :=
+  let c := {| cW := W; cWin := Win; cbias := bias; clr := lr; ctanh := tanh_rule; cmu := mu; csigma := sigma; ceta := eta |} in
+  chk_gen_ip_trace c (ip_init (length W)) recs.
